@@ -9,3 +9,11 @@ mod utils;
 pub use engine::BRC20ProgEngine;
 pub use precompiles::validate_bitcoin_rpc_status;
 pub use utils::{get_evm_address_from_pkscript, TxInfo};
+
+#[cfg(feature = "verif")]
+pub use precompiles::{
+    bip322_verify_precompile, btc_tx_details_precompile, get_locked_pkscript_precompile,
+    get_op_return_tx_id_precompile, last_sat_location_precompile, PrecompileCall,
+};
+#[cfg(feature = "verif")]
+pub use utils::{get_gas_limit, get_inscription_byte_len};
